@@ -304,10 +304,6 @@ def run(tier):
         if r.get("eval") is None:
             fail = r.get("fail", "")
             fid = None
-            if lc.FRONTEND_REJECT.search(fail):
-                m = re.search(r"Cannot assign to immutable variable '(\w+)'", fail)
-                if m and lc.immutable_shadow_then_set(case, m.group(1)):
-                    continue      # refused by the type checker (C02's finding), the evaluator never ran
             rep.violation("c03:crash:" + cid, {"program.nano": src(), "diag.txt": fail}, "%s: nanoc did not get through the shadow test (rc %s): %s" % (cid, r["nanoc_rc"], fail.strip()[-160:].replace("\n", " | ")))
             continue
         text, verdict = r["eval"]
